@@ -437,6 +437,19 @@ func vh_ae_faults() {
 	vAssume(len(a.Addr) > 0)
 	a.LeaderCommitIndex = 0
 	base := vBase()
+	// LC(L,F): what F holds as committed / applied / snapshotted is in the sender's log, identical (as in vh_ae_log)
+	for k := 1; k <= w; k++ {
+		idx := base + uint64(k)
+		vAssume(vImplies(vAnd(idx <= r.commitIndex, s.has(idx)), vAnd(k <= l.len, vSameAt(s, l, k))))
+		vAssume(vImplies(vAnd(idx <= r.lastApplied, s.has(idx)), vAnd(k <= l.len, vSameAt(s, l, k))))
+		vAssume(vImplies(vAnd(idx <= r.configurations.committedIndex, s.has(idx)), vAnd(k <= l.len, vSameAt(s, l, k))))
+	}
+	vAssume(vImplies(r.commitIndex > base, r.commitIndex <= base+uint64(l.len)))
+	vAssume(r.lastApplied <= base+uint64(l.len))
+	vAssume(r.lastSnapshotIndex <= base+uint64(l.len))
+	for k := 0; k <= l.len; k++ {
+		vAssume(vImplies(r.lastSnapshotIndex == base+uint64(k), l.termAtOff(k) == r.lastSnapshotTerm))
+	}
 	pre := vSnap(r, env)
 	s.failOn = true
 	rpc, ch := vMakeRPC(a)
@@ -468,6 +481,27 @@ func vh_ae_faults() {
 			idx := base + uint64(k)
 			vAssert(vOr(s.has(idx), idx <= r.lastSnapshotIndex), "C03.aefault.acked-entries-are-stored")
 		}
+	}
+	// whatever failed, the follower is left in a state later RPCs can repair: the log invariant the convergence
+	// obligations start from (C12 quantifies over every fault sequence that precedes the quiet period)
+	truncatedThenStoreFailed := false
+	sawTrunc := false
+	for _, c := range s.calls {
+		if c.op == opDeleteRange && c.ok {
+			sawTrunc = true
+		}
+		if c.op == opStoreLogs && !c.ok && sawTrunc {
+			truncatedThenStoreFailed = true
+		}
+	}
+	if truncatedThenStoreFailed {
+		vCover("aefault.truncated-then-store-failed")
+	}
+	for i, b := range vInvLogClauses(r, env, w) {
+		if i == 6 {
+			continue // configuration indexes: vh_ae_config
+		}
+		vAssert(b, "C12.aefault.inv-log."+vInvLogNames[i])
 	}
 	// the cache never claims a term the store contradicts
 	li, lt := r.getLastLog()
